@@ -21,6 +21,7 @@ def tables():
         out[name] = re.findall(r'\("([^"]*)", "([^"]*)"\)', body)
     return out
 
+def unhx(h): return b'' if h == '-' else bytes.fromhex(h)
 def hx(b):
     if isinstance(b, str): b = b.encode('latin-1')
     return b.hex() if b else '-'
@@ -122,6 +123,18 @@ def oracle(line, out):
         elif out.startswith('ok '):
             if not out.endswith('rt=1'):
                 return ('tostring', 'string form of the parsed media type differs from the parsed text')
+            # a KNOWN type / subtype may only be reported when the text spells its table name (in any capitalisation): nothing else is
+            # that type.  (Judged from the text alone; a '+' in the subtype part leaves the split to the parser and is not judged; what may
+            # follow a subtype name is the parser's business: only the name itself is required to be there.)
+            T = tables(); f = dict(kv.split('=', 1) for kv in out.split(' ')[1:] if '=' in kv)
+            text = unhx(w[1]).decode('latin-1'); main = text.split(';')[0]
+            if '/' in main:
+                t, rest = main.split('/', 1)
+                names_t = dict(T['mimeTypes']); names_s = dict(T['mimeSubtypes'])
+                if f.get('top') in names_t and f['top'] != 'Ext' and t.lower() != names_t[f['top']].lower():
+                    return ('misread', 'the text %r was read as the known type %s (%r)' % (text, f['top'], names_t[f['top']]))
+                if '+' not in rest and f.get('sub') in names_s and f['sub'] != 'Ext' and not rest.lower().startswith(names_s[f['sub']].lower()):
+                    return ('misread', 'the text %r was read as the known subtype %s (%r)' % (text, f['sub'], names_s[f['sub']]))
         else:
             return 'unexpected output ' + out
     elif w[0] == 'mimert':
